@@ -305,6 +305,13 @@ def so3_probes(n):
         a, b = np.sqrt(1 - u1), np.sqrt(u1)
         out.append((nm, np.column_stack([a * np.sin(2 * np.pi * u2), a * np.cos(2 * np.pi * u2),
                                         b * np.sin(2 * np.pi * u3), b * np.cos(2 * np.pi * u3)])))
+    # the sheets u1 = 0 and u1 = 1 themselves (rotations about e1; rotations by pi about axes in the e2-e3
+    # plane).  They are rows of the three-uniform grid (Coq: C19_three_uniform_reaches_sheets), so every
+    # rotation ON a sheet is within half a u_2 / u_3 step of a grid point
+    th = NPR.uniform(0, 2 * np.pi, n // 4)
+    z = np.zeros(n // 4)
+    out.append(("u1-0-sheet", np.column_stack([np.sin(th), np.cos(th), z, z])))
+    out.append(("u1-1-sheet", np.column_stack([z, z, np.sin(th), np.cos(th)])))
     # cubochoric coordinates: pyramid boundaries |x|=|y|, |y|=|z|, |x|=|z|, faces, edges
     L = 0.5 * np.pi ** (2 / 3)
     cu = NPR.uniform(-L, L, size=(n // 2, 3))
@@ -337,6 +344,7 @@ def so3_cell(method, res):
 # (also in the last cos(beta) interval next to Phi = pi, where it was 1.02 before the row
 # Phi = pi was added to the grid), quaternion 1.10
 COVER_C = {"cubochoric": 1.6, "quaternion": 1.4, "haar_euler": 0.85}
+SHEET_C = 1.05
 ORES = [12.0, 8.0] if TIER == "quick" else [12.0, 8.0, 6.0, 5.0]
 NPROBE = 1600 if TIER == "quick" else 4000
 probes = so3_probes(NPROBE)
@@ -402,15 +410,21 @@ for method in METHODS:
                 worst[stratum] = (ang[i], Pq[i])
                 key = f"cover/{method}/{stratum}/res={res}"
                 measured[key] = max(measured.get(key, 0), float(ang[i] / so3_cell(method, res)))
-            bound = COVER_C[method] * so3_cell(method, res)
             for stratum, (a, p) in worst.items():
+                bound = COVER_C[method] * so3_cell(method, res)
+                how = f"{COVER_C[method]} x the grid's nominal cell {so3_cell(method, res):.2f} deg"
+                if method == "quaternion" and stratum.endswith("-sheet") and name == "1":
+                    # point group 1 keeps the whole grid, and on a sheet only u_2 resp. u_3 varies: half a
+                    # step 360/n <= res of that circle of quaternions is a rotation distance of at most res
+                    bound = SHEET_C * res
+                    how = f"{SHEET_C} x the resolution (the sheet {stratum[:4]} is a row of the grid)"
+                    measured[f"cover/{method}/{stratum}/res={res}/C1-vs-res"] = float(a / res)
                 if a > bound:
                     sig = f"cover:{method}:{name}"
                     if stratum.startswith("Phi-pi-hole"):
                         sig = f"cover:haar_euler:Phi-pi-hole:{name}"
                     fail(sig, f"orientation (stratum {stratum}) is {a:.2f} deg from the nearest grid point or "
-                         f"symmetry-equivalent: more than {COVER_C[method]} x the grid's nominal cell "
-                         f"{so3_cell(method, res):.2f} deg at resolution {res}", dict(rep, probe=p.tolist()))
+                         f"symmetry-equivalent: more than {how} at resolution {res}", dict(rep, probe=p.tolist()))
 
 # ---- the cubochoric outer layer (rotations by pi) must be sampled, also for the N with
 # N * (L / N) > L in floating point (65, 130, 260)
